@@ -27,7 +27,7 @@ theorem galt_snoc (view cur : Bool) (q : List Bool) (h : galt view q cur) : galt
   | cons r rest ih => exact ⟨h.1, ih r h.2⟩
 
 def edgeOK (v : Nat → Bool) (e : GEdge) : Prop :=
-  if e.on then galt e.view e.queue (v e.src) else (e.view = false ∧ e.queue = [])
+  if e.on then galt e.view e.queue (v e.src) else ((e.removing = true ∨ e.view = false) ∧ e.queue = [])
 
 def gcontrib (k : Nat) (e : GEdge) : Int := if e.dst == k && e.view then gsign e else 0
 
@@ -158,6 +158,32 @@ theorem g_deliver_count (e : GEdge) (r : Bool) (c : Int) (v : Bool) (hr : r = !e
     · simp only [if_true]
       exact inheritBit_snd c v r (!r) hv
 
+/-- publishing the change of node `k` (if there is one) on consistent edges keeps them consistent -/
+theorem publish_edges (s : GS) (edges1 : List GEdge) (k : Nat) (v' : Bool) (hA : ∀ e ∈ edges1, edgeOK s.v e) :
+    ∀ e' ∈ (if (v' != s.v k) = true then edges1.map (genq k v') else edges1), edgeOK (setAt s.v k v') e' := by
+  by_cases hch : v' = s.v k
+  · have hne : (v' != s.v k) = false := by simp [hch]
+    simp only [hne, Bool.false_eq_true, if_false]
+    intro e' he'
+    refine edgeOK_same ?_ (hA e' he')
+    simp only [setAt]
+    split
+    · next hs => rw [hch]; simp at hs; rw [hs]
+    · rfl
+  · have hne : (v' != s.v k) = true := by simp [hch]
+    simp only [hne, if_true]
+    intro e' he'
+    simp only [List.mem_map] at he'
+    obtain ⟨e0, he0, rfl⟩ := he'
+    refine edgeOK_genq k v' ?_ (hA e0 he0)
+    cases h1 : v' <;> cases h2 : s.v k <;> simp_all
+
+theorem publish_gwsum (edges1 : List GEdge) (k k' : Nat) (v' : Bool) (b : Bool) :
+    gwsum k' (if b = true then edges1.map (genq k v') else edges1) = gwsum k' edges1 := by
+  split
+  · rw [gwsum_map_genq]
+  · rfl
+
 theorem GInv_step (base : Nat → Bool) (s : GS) (op : GOp) (h : GInv base s) : GInv base (gStep true base s op) := by
   cases op with
   | write j b =>
@@ -185,10 +211,11 @@ theorem GInv_step (base : Nat → Bool) (s : GS) (op : GOp) (h : GInv base s) : 
       split
       · exact h
       · next hon =>
-        have hon' : e.on = false := by simpa using hon
+        simp only [Bool.or_eq_true, not_or, Bool.not_eq_true] at hon
+        obtain ⟨hon', hrem⟩ := hon
         have hold := h.a e (List.mem_of_getElem? hi)
         unfold edgeOK at hold
-        simp only [hon', Bool.false_eq_true, if_false] at hold
+        simp only [hon', Bool.false_eq_true, if_false, hrem, false_or] at hold
         refine ⟨?_, ?_, h.p⟩
         · intro e' he'
           rcases mem_set_cases he' with rfl | he'
@@ -282,37 +309,111 @@ theorem GInv_step (base : Nat → Bool) (s : GS) (op : GOp) (h : GInv base s) : 
       rw [this] at hp
       simp at hp
     · exact h
+  | unsubMark i =>
+    simp only [gStep]
+    split
+    · next e hi =>
+      split
+      · refine ⟨?_, ?_, h.p⟩
+        · intro e' he'
+          rcases mem_set_cases he' with rfl | he'
+          · simp [edgeOK]
+          · exact h.a e' he'
+        · intro k hk
+          rw [gwsum_set k s.edges i e _ hi]
+          have : gcontrib k { e with on := false, removing := true, queue := [] } = gcontrib k e := by
+            simp [gcontrib, gsign]
+          rw [this]
+          have hb := h.b k hk
+          refine ⟨?_, hb.2⟩
+          show s.c k = _
+          rw [hb.1]
+          omega
+      · exact h
+    · exact h
+  | unsubRemove i =>
+    simp only [gStep]
+    split
+    · next e hi =>
+      split
+      · exact h
+      · next hc =>
+        simp only [Bool.or_eq_true, Bool.not_eq_true', not_or, Bool.not_eq_false, Bool.not_eq_true] at hc
+        obtain ⟨⟨⟨hrem, hon⟩, hplus⟩, hbase⟩ := hc
+        have hold := h.a e (List.mem_of_getElem? hi)
+        unfold edgeOK at hold
+        simp only [hon, Bool.false_eq_true, if_false] at hold
+        have hB := h.b e.dst hbase
+        simp only [Bool.and_true, Bool.not_true, Bool.and_false, Bool.false_eq_true, if_false]
+        have hedge1 : ∀ e' ∈ s.edges.set i { e with removing := false, view := false }, edgeOK s.v e' := by
+          intro e' he'
+          rcases mem_set_cases he' with rfl | he'
+          · unfold edgeOK
+            simp only [hon, Bool.false_eq_true, if_false]
+            exact ⟨by simp, hold.2⟩
+          · exact h.a e' he'
+        refine ⟨publish_edges s _ e.dst _ hedge1, ?_, h.p⟩
+        intro k hk
+        rw [publish_gwsum, gwsum_set k s.edges i e _ hi]
+        by_cases hkd : k = e.dst
+        · subst hkd
+          simp only [setAt, beq_self_eq_true, if_true]
+          refine ⟨?_, inheritBit_snd _ _ _ _ hB.2⟩
+          rw [inheritBit_fst, ← hB.1]
+          cases hv : e.view <;> simp [gcontrib, gsign, hplus, hv]
+          all_goals omega
+        · have hk' : (k == e.dst) = false := by simp [hkd]
+          have hk'' : (e.dst == k) = false := by simp [Ne.symm hkd]
+          simp only [setAt, hk', Bool.false_eq_true, if_false, gcontrib, hk'', Bool.false_and]
+          simpa using h.b k hk
+    · exact h
 
 theorem GInv_run (base : Nat → Bool) (s : GS) (ops : List GOp) (h : GInv base s) : GInv base (gRun true base s ops) := by
   induction ops generalizing s with
   | nil => exact h
   | cons op ops ih => exact ih _ (GInv_step base s op h)
 
-theorem gwsum_eq_wsumV (v : Nat → Bool) (k : Nat) (es : List GEdge) (h : ∀ e ∈ es, e.view = v e.src) :
-    gwsum k es = wsumV v k es := by
+theorem gwsum_eq_wsumV (v : Nat → Bool) (k : Nat) (es : List GEdge)
+    (h : ∀ e ∈ es, (e.on = true → e.view = v e.src) ∧ (e.on = false → e.view = false)) :
+    gwsum k es = wsumV v k (es.filter (·.on)) := by
   induction es with
   | nil => rfl
   | cons e es ih =>
-    simp only [gwsum, wsumV, gcontrib, h e List.mem_cons_self]
-    rw [ih (fun e' he' => h e' (List.mem_cons_of_mem _ he'))]
+    have ih' := ih (fun e' he' => h e' (List.mem_cons_of_mem _ he'))
+    have he := h e List.mem_cons_self
+    cases hon : e.on
+    · simp only [gwsum, gcontrib, he.2 hon, List.filter_cons, hon, Bool.false_eq_true, if_false, Bool.and_false, ih']
+      omega
+    · simp only [gwsum, gcontrib, he.1 hon, List.filter_cons, hon, if_true, wsumV, ih']
 
 /-- **Quiescence of a graph of derived sets**: whatever the wiring, after any sequence of base writes, subscriptions
 and deliveries that ends with everything subscribed and delivered, every derived node satisfies its defining equation
 over the current values of its direct inputs. -/
 theorem g_quiescent (base : Nat → Bool) (wiring : List (Nat × Nat × Bool × Bool)) (ops : List GOp)
     (hq : (gRun true base (GS.init wiring) ops).quiescent = true) :
-    GS.localEq base (gRun true base (GS.init wiring) ops).edges (gRun true base (GS.init wiring) ops).v := by
+    GS.localEq base (gRun true base (GS.init wiring) ops).live (gRun true base (GS.init wiring) ops).v := by
   have h := GInv_run base _ ops (GInv_init base wiring)
   generalize gRun true base (GS.init wiring) ops = s at h hq
   intro k hk
-  have hview : ∀ e ∈ s.edges, e.view = s.v e.src := by
+  have hview : ∀ e ∈ s.edges, (e.on = true → e.view = s.v e.src) ∧ (e.on = false → e.view = false) := by
     intro e he
-    simp only [GS.quiescent, Bool.and_eq_true, List.all_eq_true, List.isEmpty_iff] at hq
+    simp only [GS.quiescent, Bool.and_eq_true, List.all_eq_true, List.isEmpty_iff, Bool.or_eq_true,
+      Bool.not_eq_true'] at hq
     have hqe := hq.1 e he
     have hok := h.a e he
     unfold edgeOK at hok
-    simp only [hqe.1, if_true, hqe.2] at hok
-    exact hok
+    constructor
+    · intro hon
+      rcases hqe with hq1 | hq1
+      · simp only [hon, if_true, hq1.2] at hok
+        exact hok
+      · simp [hon] at hq1
+    · intro hon
+      rcases hqe with hq1 | hq1
+      · simp [hon] at hq1
+      · simp only [hon, Bool.false_eq_true, if_false, hq1.2, false_or] at hok
+        exact hok.1
+  unfold GS.live
   rw [← gwsum_eq_wsumV s.v k s.edges hview, ← (h.b k hk).1]
   simpa using (h.b k hk).2
 
@@ -438,5 +539,18 @@ theorem compose_unique_general {α : Type} (base : Nat → Bool) (F : Nat → (N
     · rw [hv k hk, hv' k hk]
       exact hF k v v' ih
     · exact hb k hk
+
+/-- What the driver does between two requests of a `gs` case (deliver the first undelivered report until nothing is
+queued) is a run of the graph model. -/
+theorem gSettle_run (base : Nat → Bool) (fuel : Nat) (s : GS) : ∃ ops, gSettle base fuel s = gRun true base s ops := by
+  induction fuel generalizing s with
+  | zero => exact ⟨[], rfl⟩
+  | succ fuel ih =>
+    simp only [gSettle]
+    split
+    · next i _ =>
+      obtain ⟨ops, h⟩ := ih (gStep true base s (.deliver i))
+      exact ⟨.deliver i :: ops, by rw [h]; rfl⟩
+    · exact ⟨[], rfl⟩
 
 end Hive.Derived
